@@ -4,14 +4,28 @@ import numpy as np
 TOL = 1e-8
 
 
+class InputMutated(Exception):
+    """The callee modified an array it was given (every property quantifies over 'the data':
+    an estimator that overwrites its input breaks each clause relating two calls on the same
+    data - nesting, NFFT independence, class vs function - for the caller's next call)."""
+
+
 def call_guard(f, *a, **kw):
     """-> (True, result) or (False, exception).  Catches every exception of the callee
-    (assertions included) - what the exception *means* is decided by the caller."""
+    (assertions included) - what the exception *means* is decided by the caller.
+    ndarray arguments are snapshotted: a callee that modifies one is reported as the
+    exception InputMutated."""
+    snaps = [(i, v, v.copy()) for i, v in enumerate(a) if isinstance(v, np.ndarray)]
+    snaps += [(k, v, v.copy()) for k, v in kw.items() if isinstance(v, np.ndarray)]
     try:
         with np.errstate(all='ignore'):
-            return True, f(*a, **kw)
+            res = f(*a, **kw)
     except Exception as e:  # noqa
         return False, e
+    for key, v, before in snaps:
+        if v.shape != before.shape or not np.array_equal(v, before, equal_nan=True):
+            return False, InputMutated('%s modified its argument %r in place' % (getattr(f, '__name__', 'callee'), key))
+    return True, res
 
 
 def cmp_vec(obs, exp, tol=TOL, name=''):
